@@ -26,6 +26,8 @@ ENV_BASE = {
     "UBSAN_OPTIONS": "print_stacktrace=1:halt_on_error=1:exitcode=77",
 }
 ABORT_CODES = (42, 43)
+# VERIF_BUDGET_SCALE scales the case counts (smoke-testing a tier); the registered commands do not set it
+SCALE = float(os.environ.get("VERIF_BUDGET_SCALE", "1") or 1)
 
 
 def log(msg):
@@ -249,7 +251,7 @@ class Campaign:
             allowed = h.get("variants") or list(range(len(schema["variants"])))
             nvar = len(allowed)
             k = alloc[hi]
-            total_cases = h.get(self.tier, 0)
+            total_cases = int(h.get(self.tier, 0) * SCALE)
             per = max(1, total_cases // k)
             for xi, xargs in enumerate(h.get("extra", {}).get(self.tier, [])):
                 jobs.append({"harness": name, "binary": binary, "j": 1000 + xi, "hi": hi, "cpu": cpu % NCPU, "cases": 1, "variants": [0], "restart": 0, "done": 0,
@@ -354,7 +356,7 @@ class Campaign:
                 if h.get("variants"):
                     e["CDSVERIF_VARIANTS"] = ",".join(str(v) for v in h["variants"])
                 s = sub_seed(self.seed, self.pid, name, "fuzz", j)
-                cmd = ["taskset", "-c", str(cpu % NCPU), bins[name]["fuzz"], corpus, "-runs=%d" % (h["fuzz_runs"] // per_h), "-seed=%d" % s,
+                cmd = ["taskset", "-c", str(cpu % NCPU), bins[name]["fuzz"], corpus, "-runs=%d" % max(1, int(h["fuzz_runs"] * SCALE) // per_h), "-seed=%d" % s,
                        "-entropic=0", "-max_len=192", "-len_control=0", "-timeout=0", "-rss_limit_mb=4096", "-print_final_stats=1",
                        "-artifact_prefix=" + prefix + ".", "-error_exitcode=78", "-use_value_profile=0"]
                 lg = open(prefix + ".log", "w")
